@@ -250,3 +250,32 @@ MUTANTS += [
 from contracts import c05 as _c05b  # noqa: E402
 
 CONTRACTS += [_c05b.bcrypt_2_contract]
+
+
+# ---- PrefixWrapper.identify: a wrapped hasher claims exactly the strings that carry its prefix and whose unwrapped form the
+#      wrapped hasher claims -- the BARE prefix included ({plaintext} + '' is the roundup / ldap hash of the empty password) ----
+_WID = z3.Function("wrapped.identify", z3.StringSort(), z3.BoolSort())
+
+
+def _pwi_setup(it, args):
+    from pyvc.values import SBool as _SB, SStub as _ST
+    args["self"].fields["wrapped"].fields["identify"] = _ST(lambda i, a, k: _SB(_WID(i.to_z3(a[0]))), "wrapped.identify", trusted="the wrapped hasher's identify(): any predicate")
+    it.genv.vars["to_unicode_for_identify"] = _ST(lambda i, a, k: a[0], "to_unicode_for_identify", trusted="text is returned as is (C17: own contract for bytes)")
+    return None
+
+
+prefix_identify = _Contract(
+    "PrefixWrapper.identify", f"{H}::PrefixWrapper.identify",
+    params={"self": PW, "hash": _Str()},
+    setup=_pwi_setup,
+    ensures=[("identify(h) == (h carries the prefix and the wrapped hasher identifies orig_prefix + rest) -- for EVERY h, the bare prefix included",
+              lambda it, env: it.to_zbool(it.truth(env.lookup("result"))) == z3.And(
+                  z3.PrefixOf(it.to_z3(it.resolve(env.lookup("self")).fields["prefix"]), it.to_z3(env.lookup("hash"))),
+                  _WID(z3.Concat(it.to_z3(it.resolve(env.lookup("self")).fields["orig_prefix"]),
+                                 z3.SubString(it.to_z3(env.lookup("hash")), z3.Length(it.to_z3(it.resolve(env.lookup("self")).fields["prefix"])), z3.Length(it.to_z3(env.lookup("hash")))))))) ],
+    descr="any prefix pair, any string, any wrapped identify()",
+)
+CONTRACTS.append(prefix_identify)
+MUTANTS += [
+    ("PrefixWrapper.identify rejects the bare prefix", H, "        if not hash.startswith(self.prefix):\n            return False\n        hash = self._unwrap_hash(hash)\n        return self.wrapped.identify(hash)", "        if len(hash) <= len(self.prefix) or not hash.startswith(self.prefix):\n            return False\n        hash = self._unwrap_hash(hash)\n        return self.wrapped.identify(hash)", "refute", "PrefixWrapper.identify"),
+]
